@@ -234,7 +234,18 @@ def run(p, report, tier):
     if not inner_q or not mp_sq:
         raise AnalysisError("SingleAnnotatorWrapper.query: inner query / mapping vanished")
     ck = kwmap(inner_q[0]).get("candidates")
-    okc = ck is not None and bool(names_in(ck) & mp_sq)
+    def _via_defs(e, depth=0):
+        if names_in(e) & mp_sq:
+            return True
+        if depth > 3:
+            return False
+        for nm in names_in(e):
+            for d in ast.walk(sqn):
+                if isinstance(d, ast.Assign) and any(isinstance(t, ast.Name) and t.id == nm for t in d.targets) \
+                        and _via_defs(d.value, depth + 1):
+                    return True
+        return False
+    okc = ck is not None and _via_defs(ck)
     report.add("R20.3", sq.qual, "inner strategy is queried with the index candidates when a mapping exists",
                f"{sq.file}:{inner_q[0].lineno}", okc, detail=f"candidates={ast.unparse(ck) if ck is not None else None}" if okc else
                "the wrapped strategy always receives the candidate SAMPLES: strategies that treat index candidates "
